@@ -91,6 +91,8 @@ type MWStep struct {
 	Perm  []int  `json:"perm,omitempty"` // merge order code for the open(s) of this step
 	Mask  int    `json:"mask,omitempty"` // partial: which current versions the opener is shown
 	Cut   int64  `json:"cut,omitempty"`  // vacuum: cutoff, seconds after baseTime; -1 = year 2100
+	// Rollback (txn): the transaction ends with ROLLBACK; nothing of it may remain
+	Rollback bool `json:"rollback,omitempty"`
 }
 
 type MWCase struct {
@@ -100,6 +102,9 @@ type MWCase struct {
 	Steps     []MWStep `json:"steps"`
 	Mode      string   `json:"mode,omitempty"` // "", "c09", "c10": which vacuum oracles are active
 	SmallVals bool     `json:"small_vals,omitempty"`
+	// Cache: node_cache_entries of the writers' tables. Used with entries_per_node=4096 only
+	// (single-node trees): on multi-node trees the node cache and rollbacks run into K4.
+	Cache int `json:"cache,omitempty"`
 }
 
 type mwGenCfg struct {
@@ -112,6 +117,9 @@ type mwGenCfg struct {
 	wVacuum                                           int
 	mode                                              string
 	smallVals                                         bool
+	// cacheAndRollback: on single-node trees, writers may use a node cache and
+	// transactions may end in ROLLBACK
+	cacheAndRollback bool
 }
 
 func genPerm(t *rapid.T, label string) []int {
@@ -130,6 +138,10 @@ func genMWCase(t *rapid.T, g mwGenCfg) MWCase {
 		vals = rapid.SampledFrom([]Val{vNull(), vInt(1), vInt(2)})
 	}
 	c.Mode, c.SmallVals = g.mode, g.smallVals
+	single := g.cacheAndRollback && c.EPN == 4096
+	if single {
+		c.Cache = rapid.SampledFrom([]int{0, 3, 1000}).Draw(t, "cache")
+	}
 	cfg := stmtGenCfg{keys: intKeys(c.NKeys), cols: wideCols, vals: vals, multiRow: g.multiRow, wIns: g.wIns, wUpd: g.wUpd, wDel: g.wDel}
 	n := rapid.IntRange(2, g.maxSteps).Draw(t, "nsteps")
 	tot := g.wStmt + g.wTxn + g.wRefresh + g.wRetry + g.wPartial + g.wObserve + g.wVacuum
@@ -152,6 +164,9 @@ func genMWCase(t *rapid.T, g mwGenCfg) MWCase {
 		case r < g.wStmt+g.wTxn:
 			k := rapid.IntRange(1, 3).Draw(t, "ntx")
 			st := MWStep{Op: "txn", W: w}
+			if single {
+				st.Rollback = rapid.IntRange(0, 2).Draw(t, "rollback") == 0
+			}
 			for j := 0; j < k; j++ {
 				s := genStmt(t, cfg, "s")
 				stamp(&s)
@@ -243,6 +258,9 @@ func newMWRun(c MWCase, o *Obs) (*mwRun, error) {
 	r.bucket, r.store = newBucket(nil)
 	r.prefix = tablePrefix("")
 	r.spec = TableSpec{Columns: mwCols, Bucket: r.bucket, EPN: c.EPN}
+	if c.EPN == 4096 {
+		r.spec.Cache = c.Cache
+	}
 	setPerm(r.store, r.prefix, nil)
 	for i := 0; i < c.NWriters; i++ {
 		w := &mwWriter{conn: newConn(), name: uniqName("t"), view: MSet{}}
@@ -560,10 +578,25 @@ func (r *mwRun) step1(i int, s MWStep, where string) error {
 		if err := w.conn.Exec("begin"); err != nil {
 			return fmt.Errorf("%s: begin: %v", where, err)
 		}
+		saved, nIssued, nOps := w.view.Clone(), len(r.issued), r.opsAdded
 		for _, st := range s.Stmts {
 			if err := r.execStmt(s.W, st, where, false, true); err != nil {
 				return err
 			}
+		}
+		if s.Rollback && r.c.EPN == 4096 {
+			if err := w.conn.Exec("rollback"); err != nil {
+				return fmt.Errorf("%s: rollback: %v", where, err)
+			}
+			w.view, r.opsAdded = saved, nOps
+			for j := nIssued; j < len(r.effective); j++ {
+				r.effective[j] = false
+			}
+			r.o.Class("txn-rolled-back")
+			if err := r.checkWriter(s.W, where+" (after rollback)"); err != nil {
+				return err
+			}
+			return r.publish(w)
 		}
 		if err := w.conn.Exec("commit"); err != nil {
 			return fmt.Errorf("%s: commit: %v", where, err)
